@@ -209,6 +209,7 @@ impl Scenario for PaseStorm {
                 mutate_unsecured_permille: [0, 0, 60, 250][tape::choose(4) as usize],
                 mutate_secured_permille: [0, 0, 50][tape::choose(3) as usize],
                 replay_permille: [0, 0, 60][tape::choose(3) as usize],
+                corrupt_pake3_from: None,
             }
         } else {
             UniformNet {
@@ -404,6 +405,7 @@ impl Scenario for CaseMutation {
                 mutate_unsecured_permille: [0, 80, 300][tape::choose(3) as usize],
                 mutate_secured_permille: [0, 40][tape::choose(2) as usize],
                 replay_permille: [0, 80][tape::choose(2) as usize],
+                corrupt_pake3_from: None,
             }
         } else {
             UniformNet {
@@ -523,6 +525,250 @@ impl Scenario for CaseMutation {
     }
 }
 
+
+/// C02: a commissioner which knows the passcode, but whose confirmation value (cA in Pake3) is
+/// corrupted on the way every time: each attempt is a failed proof; after twenty the window is gone
+/// and no session ever existed.
+pub struct Pake3Corrupted;
+
+impl Scenario for Pake3Corrupted {
+    fn property(&self) -> &'static str {
+        "C02"
+    }
+    fn name(&self) -> &'static str {
+        "confirmation-corrupted-on-path"
+    }
+
+    fn run(&self, seed: u64) -> Outcome {
+        let n = 21 + tape::choose(4);
+        let mut script = vec![CtlStep::Sleep { ms: tape::choose(20) * 25 }];
+        for _ in 0..n {
+            script.push(CtlStep::PaseAttempt { dev: 0, passcode: GOOD });
+            script.push(CtlStep::Sleep { ms: tape::choose(4) * 50 });
+        }
+        // The device books the last failure when its handler is through with the exchange
+        script.push(CtlStep::Sleep { ms: 20_000 });
+        let mut passcodes = BTreeMap::new();
+        passcodes.insert(1usize, GOOD);
+        let cfg = FullCfg {
+            n_devices: 1,
+            controllers: vec![CtlSpec { fabric_id: 1, node_id: 0x1000, script, continue_on_error: true }],
+            handlers: 1 + tape::choose(3) as usize,
+            net: UniformNet {
+                latency_us: 500 + tape::choose(4) as u64 * 500,
+                corrupt_pake3_from: Some(1),
+                ..Default::default()
+            },
+            sched: SchedCfg {
+                nonfifo_permille: [0, 100, 300][tape::choose(3) as usize],
+                max_polls: 6_000_000,
+                max_time: 3_000 * SEC,
+                ..Default::default()
+            },
+            limit_us: 2_000 * SEC,
+            kv_faults: vec![],
+            crashes: vec![],
+            restart_after_us: 300 * MS,
+            cancels: vec![],
+            calm_at_us: None,
+        };
+        let mut watch = Watch {
+            violations: Vec::new(),
+            max_failures: 0,
+            steps: 0,
+            passcodes,
+            window_seen_closed_at: None,
+        };
+        let mut pase_sessions_seen = 0u64;
+        let run = drive_full_with(seed, cfg, &mut |t, states| {
+            if let Some(Some(st)) = states.first() {
+                watch.step(t, st);
+                pase_sessions_seen += st
+                    .snap
+                    .sessions
+                    .iter()
+                    .filter(|s| !s.reserved && matches!(s.mode, SessionMode::Pase { .. }))
+                    .count() as u64;
+            }
+        });
+        let mut out = Outcome::default();
+        common_counters(&run, &mut out);
+        for (o, d) in &watch.violations {
+            out.violate(o, d.clone());
+        }
+        let r = results(&run, 1);
+        let attempts = r.iter().filter(|(nm, _, _)| *nm == "pase_attempt").count();
+        let corrupted = run.fired.get("corrupt_pake3_distinct_messages").copied().unwrap_or(0);
+        let describe = || {
+            format!(
+                "{attempts} attempts, {corrupted} confirmations corrupted, failure counter reached {}, window closed at {:?}; results {:?}",
+                watch.max_failures,
+                watch.window_seen_closed_at,
+                r.iter().filter(|(nm, _, _)| *nm == "pase_attempt").map(|(_, c, t)| format!("{c:x}@{}", t / 1000)).collect::<Vec<_>>()
+            )
+        };
+        out.count("corrupted_confirmations", corrupted);
+        if r.iter().any(|(nm, c, _)| *nm == "pase_attempt" && *c == 0xffff) || pase_sessions_seen > 0 {
+            out.violate("C02-session-from-corrupted-confirmation", describe());
+        }
+        if run.all_done && corrupted >= 20 {
+            out.count("probe_window_revoked_after_20_failures", 1);
+            if watch.window_seen_closed_at.is_none() {
+                out.violate("C02-window-survives-20-failures", describe());
+            }
+        }
+        out.nontrivial = corrupted > 0;
+        out.state_sigs.push(corrupted);
+        out.sample = Some(json!({"attempts": attempts, "corrupted_confirmations": corrupted, "failure_counter_max": watch.max_failures}));
+        out
+    }
+}
+
+/// C02: the window is revoked by the administrator while another commissioner's handshake is
+/// between two of its steps. No PASE session may come into existence after the window was closed.
+pub struct WindowClosesMidHandshake {
+    pub faults: bool,
+}
+
+impl Scenario for WindowClosesMidHandshake {
+    fn property(&self) -> &'static str {
+        "C02"
+    }
+    fn name(&self) -> &'static str {
+        if self.faults {
+            "window-closes-mid-handshake-delays"
+        } else {
+            "window-closes-mid-handshake"
+        }
+    }
+
+    fn run(&self, seed: u64) -> Outcome {
+        let latency = 500 + tape::choose(8) as u64 * 500;
+        let t_b = 6_000 + tape::choose(4) * 250;
+        // The revocation is a timed invoke (two round trips over CASE); the handshake three
+        let delta = tape::choose(60) as i64 - 20;
+        let t_r = (t_b as i64 + delta * (latency as i64) / 1000).max(5_000) as u32;
+        let a_script = vec![
+            CtlStep::Commission { dev: 0 },
+            CtlStep::OpenWindow { dev: 0, secs: 600 },
+            CtlStep::ReadOnOff { dev: 0 },
+            CtlStep::SleepUntil { ms: t_r },
+            CtlStep::Revoke { dev: 0 },
+            CtlStep::Sleep { ms: 3_000 },
+            CtlStep::ReadOnOff { dev: 0 },
+        ];
+        let b_script = vec![
+            CtlStep::SleepUntil { ms: t_b },
+            CtlStep::PaseAttempt { dev: 0, passcode: GOOD },
+            CtlStep::Sleep { ms: 3_000 },
+        ];
+        let net = UniformNet {
+            latency_us: latency,
+            jitter_us: if self.faults { [0, 500, 2000][tape::choose(3) as usize] } else { 0 },
+            hold_permille: if self.faults { [0, 100, 300][tape::choose(3) as usize] } else { 0 },
+            hold_max_ms: 8,
+            ..Default::default()
+        };
+        let cfg = FullCfg {
+            n_devices: 1,
+            controllers: vec![
+                CtlSpec { fabric_id: 1, node_id: 0x1000, script: a_script, continue_on_error: true },
+                CtlSpec { fabric_id: 2, node_id: 0x2000, script: b_script, continue_on_error: true },
+            ],
+            handlers: 3,
+            net,
+            sched: SchedCfg {
+                nonfifo_permille: if self.faults { [0, 100, 300][tape::choose(3) as usize] } else { 0 },
+                max_polls: 3_000_000,
+                max_time: 1_000 * SEC,
+                ..Default::default()
+            },
+            limit_us: 600 * SEC,
+            kv_faults: vec![],
+            crashes: vec![],
+            restart_after_us: 300 * MS,
+            cancels: vec![],
+            calm_at_us: None,
+        };
+        // (time, window open, ids of the live PASE sessions)
+        let mut series: Vec<(u64, bool, Vec<u32>)> = Vec::new();
+        set_fine_probe(Some((5_000 * MS, 6_900 * MS + 80 * latency, 100)));
+        let run = drive_full_with(seed, cfg, &mut |t, states| {
+            if let Some(Some(st)) = states.first() {
+                let pase: Vec<u32> = st
+                    .snap
+                    .sessions
+                    .iter()
+                    .filter(|s| !s.reserved && !s.expired && matches!(s.mode, SessionMode::Pase { .. }))
+                    .map(|s| s.id)
+                    .collect();
+                if series.last().map(|(_, w, p)| (*w, p) != (st.window_open, &pase)).unwrap_or(true) {
+                    series.push((t, st.window_open, pase));
+                }
+            }
+        });
+        let mut out = Outcome::default();
+        common_counters(&run, &mut out);
+        let a = results(&run, 1);
+        let b = results(&run, 2);
+        let commissioned = a.iter().any(|(n, c, _)| *n == "commission" && *c == 0xffff)
+            && a.iter().any(|(n, c, _)| *n == "open_window" && *c == 0xffff)
+            && a.iter().any(|(n, c, _)| *n == "revoke" && *c == 0xffff);
+        let describe = || {
+            format!(
+                "latency {latency} us; A {:?}; B {:?}; device (t us, window open, live PASE sessions): {:?}",
+                a.iter().filter(|(n, _, _)| *n != "sleep").map(|(n, c, t)| format!("{n}:{c:x}@{t}")).collect::<Vec<_>>(),
+                b.iter().filter(|(n, _, _)| *n != "sleep").map(|(n, c, t)| format!("{n}:{c:x}@{t}")).collect::<Vec<_>>(),
+                series
+            )
+        };
+        if run.all_done && commissioned {
+            out.count("c02_revocations_near_a_handshake", 1);
+            // The instant the window was seen closed (after the commissioning's own closing and re-opening)
+            let t_opened = a.iter().find(|(n, _, _)| *n == "open_window").map(|(_, _, t)| *t).unwrap_or(0);
+            let reopened = series.iter().position(|(t, w, _)| *w && *t >= t_opened).or_else(|| {
+                // The window was open before and stayed open: start at the last state before that
+                series.iter().rposition(|(t, w, _)| *w && *t < t_opened)
+            });
+            if let Some(ro) = reopened {
+                let mut known: std::collections::BTreeSet<u32> = std::collections::BTreeSet::new();
+                let mut closed_at: Option<u64> = None;
+                for (t, w, pase) in series.iter().skip(ro) {
+                    if !*w && closed_at.is_none() {
+                        closed_at = Some(*t);
+                    }
+                    for id in pase {
+                        if known.insert(*id) {
+                            if let Some(tc) = closed_at {
+                                // A session which was not there when the window was seen closed
+                                if *t > tc {
+                                    out.count("c02_sessions_after_close", 1);
+                                    out.violate(
+                                        "C02-session-after-window-closed",
+                                        format!("PASE session {id} first seen at t={t} us, the window was closed at t={tc} us; {}", describe()),
+                                    );
+                                }
+                            }
+                        }
+                    }
+                }
+                if b.iter().any(|(n, c, _)| *n == "pase_attempt" && *c == 0xffff) {
+                    out.count("c02_handshakes_completed_next_to_revocation", 1);
+                } else {
+                    out.count("c02_handshakes_refused_next_to_revocation", 1);
+                }
+            }
+        } else {
+            out.count("runs_incomplete", 1);
+        }
+        out.nontrivial = commissioned;
+        out.state_sigs.push(delta as u64);
+        out.sample = Some(json!({"latency_us": latency, "pase_at_ms": t_b, "revoke_at_ms": t_r,
+            "B": b.iter().filter(|(n, _, _)| *n != "sleep").map(|(n, c, t)| format!("{n}:{c:x}@{t}")).collect::<Vec<_>>()}));
+        out
+    }
+}
+
 pub fn defs() -> Vec<PropertyDef> {
     let storm = |which: Which, id: &'static str, rule: &'static str| PropertyDef {
         id,
@@ -549,12 +795,16 @@ pub fn defs() -> Vec<PropertyDef> {
         stubbed: "network (with on-path mutation / replay), clock, RNG, KV back-end, mDNS (stub), attestation (test DAC)",
         budget_s: (90, 600),
     };
-    vec![
-        storm(
+    let mut c02 = storm(
             Which::C02,
             "C02",
-            "one run = a device with an open basic commissioning window and 2-4 initiators plus a final honest probe: right or wrong passcode (up to 25 wrong attempts in a row), full commissioning or PASE only, abandoned (task cancelled) at a tape-chosen microsecond, device handlers cancelled, on-path single-bit/byte/truncate/extend mutation and replay of handshake datagrams, loss/duplication/delay; invariants on every 100 ms device probe (PASE session only for a peer that knows the passcode, advertisement iff window open, failure counter <= 20); distinct = distinct trace hash; non-trivial = > 20 datagrams and a fault fired",
-        ),
+            "one run = a device with an open basic commissioning window and 2-4 initiators plus a final honest probe: right or wrong passcode (up to 25 wrong attempts in a row), full commissioning or PASE only, abandoned (task cancelled) at a tape-chosen microsecond, device handlers cancelled, on-path single-bit/byte/truncate/extend mutation and replay of handshake datagrams, loss/duplication/delay; invariants on every 100 ms device probe (PASE session only for a peer that knows the passcode, advertisement iff window open, failure counter <= 20); further families: the confirmation value of every Pake3 of a commissioner that knows the passcode is corrupted on the path (21-24 attempts: no session, window revoked after 20 failed proofs); the administrator revokes the window within a few network latencies of another commissioner's handshake (device probed every 100 us: no PASE session appears after the window was seen closed); distinct = distinct trace hash; non-trivial = > 20 datagrams and a fault fired",
+        );
+    c02.families.push(Family { scenario: Box::new(Pake3Corrupted), weight: 1, fault_free: false });
+    c02.families.push(Family { scenario: Box::new(WindowClosesMidHandshake { faults: false }), weight: 2, fault_free: false });
+    c02.families.push(Family { scenario: Box::new(WindowClosesMidHandshake { faults: true }), weight: 2, fault_free: false });
+    vec![
+        c02,
         storm(
             Which::C20,
             "C20",
